@@ -78,7 +78,9 @@ pub enum Desc {
     PScalar { size: usize, be: bool },
     Array(Box<Desc>, usize),
     /// Sized C-like enum, `repr(tag)`.
-    CEnum { tag: usize, count: usize, default: usize },
+    /// `discs`: the explicit discriminants of the variants (None: 0, 1, 2, ...). A value of the type is the
+    /// stored discriminant.
+    CEnum { tag: usize, count: usize, default: usize, discs: Option<Vec<u128>> },
     Struct { fields: Vec<Desc>, sized: bool },
     Enum { tag: usize, variants: Vec<Vec<Desc>>, sized: bool, default: Option<usize> },
     Vec { elem: Box<Desc>, len: LenTy },
@@ -274,7 +276,7 @@ impl Desc {
         Some(match self {
             Desc::Unit => Value::Unit,
             Desc::Prim { .. } | Desc::PScalar { .. } | Desc::Bool => Value::Scalar(0),
-            Desc::CEnum { default, .. } => Value::Scalar(*default as u128),
+            Desc::CEnum { default, discs, .. } => Value::Scalar(discs.as_ref().map_or(*default as u128, |d| d[*default])),
             Desc::Array(e, n) => Value::Array((0..*n).map(|_| e.default_value()).collect::<Option<Vec<_>>>()?),
             Desc::Struct { fields, .. } => Value::Struct(fields.iter().map(|f| f.default_value()).collect::<Option<Vec<_>>>()?),
             Desc::Enum { variants, default, .. } => {
@@ -473,9 +475,9 @@ fn decode_sized(d: &Desc, b: &[u8]) -> Result<Value, Reject> {
             }
             Value::Scalar(b[0] as u128)
         }
-        Desc::CEnum { tag, count, .. } => {
+        Desc::CEnum { tag, count, discs, .. } => {
             let t = read_uint(b, false);
-            if t >= *count as u128 {
+            if discs.as_ref().map_or(t >= *count as u128, |d| !d.contains(&t)) {
                 return Err(Reject::Content { lo: 0, hi: *tag, tag: true });
             }
             Value::Scalar(t)
